@@ -54,6 +54,8 @@ type Exec struct {
 	evArgsSkip  int
 	selfVal0    *Val
 	onlySafety  bool
+	guardedAll  map[string]bool // lazily: every heap key guarded by some lock
+	fcModKeys   map[string]bool // lazily: heap keys named by the modifies clause of x.fc
 }
 
 type Loop struct {
